@@ -35,9 +35,15 @@ Fixpoint wf_sub_sizes (nums : list Z) (fs : list folder) (sizes : list Z) : bool
   end.
 Definition defined_values (dg : list Z) (dd : list bool) : list Z :=
   map fst (filter (fun p : Z * bool => snd p) (combine dg dd)).
-(* what a reader gets back for an entry: ctime/atime are never written, mtime/attributes are vectors *)
-Definition norm_file (e : fileent) : fileent :=
-  mkFile (e_emptystream e) (e_name e) None None (Some (flat_opt (e_mtime e))) (Some (flat_opt (e_attr e))).
+(* what a reader gets back for an entry: mtime/attributes are vectors (always written); the creation /
+   access time vector is written exactly when some entry has a defined value (cd / ad = Header.has_time) *)
+Definition tnorm (b : bool) (o : option (option Z)) : option (option Z) :=
+  if b then Some (flat_opt o) else None.
+Definition norm_file (cd ad : bool) (e : fileent) : fileent :=
+  mkFile (e_emptystream e) (e_name e) (tnorm cd (e_ctime e)) (tnorm ad (e_atime e))
+         (Some (flat_opt (e_mtime e))) (Some (flat_opt (e_attr e))).
+Definition norm_files (files : list fileent) : list fileent :=
+  map (norm_file (has_time e_ctime files) (has_time e_atime files)) files.
 (* the EmptyFile vector as written: one bit per empty-stream entry *)
 Definition norm_emptyfiles (files : list fileent) (emptyfiles : list bool) : list bool :=
   let nes := Z.to_nat (count_true (map e_emptystream files)) in
@@ -45,11 +51,15 @@ Definition norm_emptyfiles (files : list fileent) (emptyfiles : list bool) : lis
 Definition names_of (files : list fileent) : list (list Z) :=
   flat_map (fun f => match e_name f with Some n => [n] | None => [] end) files.
 Definition wr_bond (p : Z * Z) : res bytes := do a <- wr_number (fst p); do b <- wr_number (snd p); Ok (a ++ b).
-(* reader states after the EMPTY_STREAM, NAME and LAST_WRITE_TIME records *)
+(* reader states after the EMPTY_STREAM, NAME, CREATION_TIME, LAST_ACCESS_TIME and LAST_WRITE_TIME records *)
 Definition st1 (e : fileent) : fileent := mkFile (e_emptystream e) None None None None None.
 Definition st2 (e : fileent) : fileent := mkFile (e_emptystream e) (e_name e) None None None None.
-Definition st3 (e : fileent) : fileent :=
-  mkFile (e_emptystream e) (e_name e) None None (Some (flat_opt (e_mtime e))) None.
+Definition st2c (cd : bool) (e : fileent) : fileent :=
+  mkFile (e_emptystream e) (e_name e) (tnorm cd (e_ctime e)) None None None.
+Definition st2a (cd ad : bool) (e : fileent) : fileent :=
+  mkFile (e_emptystream e) (e_name e) (tnorm cd (e_ctime e)) (tnorm ad (e_atime e)) None None.
+Definition st3 (cd ad : bool) (e : fileent) : fileent :=
+  mkFile (e_emptystream e) (e_name e) (tnorm cd (e_ctime e)) (tnorm ad (e_atime e)) (Some (flat_opt (e_mtime e))) None.
 
 (* ---- the header graphs py7zr writes ---- *)
 (* Folder.prepare_coderinfo: bindpairs = [Bond(incoder=i+1, outcoder=i) for i in range(n-1)] *)
@@ -213,7 +223,7 @@ Definition sem_packcrcs (en : bool) (p : packinfo) : list (option Z) :=
   else repeat None (Z.to_nat (p_numstreams p)).
 
 Definition sem_of (en : bool) (h : header) : sheader :=
-  let files := map norm_file (files_of h) in
+  let files := norm_files (files_of h) in
   match h_streams h with
   | Some (mkStreams (Some p) (Some fs) (Some sub)) =>
       mkSHeader (p_pos p) (p_sizes p) (sem_packcrcs en p) (map sem_folder fs)
@@ -226,7 +236,16 @@ Definition sem_of (en : bool) (h : header) : sheader :=
 (* ---- FilesInfo as a sequence of property records ---- *)
 Definition enc_record (r : Z * bytes) : bytes := fst r :: number_enc (zlen (snd r)) ++ snd r.
 
-Definition mtime_defined (files : list fileent) : list bool := map (fun f => opt_defined (e_mtime f)) files.
+Definition time_defined (sel : fileent -> option (option Z)) (files : list fileent) : list bool :=
+  map (fun f => opt_defined (sel f)) files.
+Definition mtime_defined (files : list fileent) : list bool := time_defined e_mtime files.
+(* the content of a time record: defined-vector, external = 0, one 8-byte value per defined entry *)
+Definition time_record (sel : fileent -> option (option Z)) (files : list fileent) (body : bytes) : Prop :=
+  exists vals,
+     wr_list (fun f => if opt_defined (sel f) then wr_fixed 8 (opt_value (sel f)) else Ok []) files = Ok vals /\
+     body = wr_boolean (time_defined sel files) true ++ [0] ++ vals /\
+     zlen body = 1 + (if all_true (time_defined sel files) then 0 else (zlen files + 7) / 8) + 1
+                 + 8 * count_true (time_defined sel files).
 Definition attr_defined (files : list fileent) : list bool := map (fun f => opt_defined (e_attr f)) files.
 
 (* what each record written by FilesInfo.write contains, and the size the grammar gives that content *)
@@ -236,11 +255,9 @@ Definition record_content (files : list fileent) (efl : list bool) (r : Z * byte
   (p = 15 /\ body = wr_bits efl /\ zlen body = (count_true (map e_emptystream files) + 7) / 8) \/
   (p = 25 /\ exists k, body = repeatZ 0 k) \/
   (p = 17 /\ exists nb, wr_list wr_utf16 (names_of files) = Ok nb /\ body = 0 :: nb) \/
-  (p = 20 /\ exists vals,
-     wr_list (fun f => if opt_defined (e_mtime f) then wr_fixed 8 (opt_value (e_mtime f)) else Ok []) files = Ok vals /\
-     body = wr_boolean (mtime_defined files) true ++ [0] ++ vals /\
-     zlen body = 1 + (if all_true (mtime_defined files) then 0 else (zlen files + 7) / 8) + 1
-                 + 8 * count_true (mtime_defined files)) \/
+  (p = 18 /\ has_time e_ctime files = true /\ time_record e_ctime files body) \/
+  (p = 19 /\ has_time e_atime files = true /\ time_record e_atime files body) \/
+  (p = 20 /\ time_record e_mtime files body) \/
   (p = 21 /\ exists vals,
      wr_list (fun f => if opt_defined (e_attr f) then wr_fixed 4 (opt_value (e_attr f)) else Ok []) files = Ok vals /\
      body = wr_boolean (attr_defined files) true ++ [0] ++ vals /\
@@ -991,6 +1008,10 @@ Proof. intros H fuel Hf. apply H. lia. Qed.
 
 (* a record is accepted iff its size field is exactly the length of its content and the content is
    exactly what the property's grammar consumes (s_file_prop uses s_exact) *)
+Lemma SF_weaken_le lim k k' files ef bs res : (k <= k')%nat ->
+  SF lim k files ef bs res -> SF lim k' files ef bs res.
+Proof. intros Hk H fuel Hf. apply H. lia. Qed.
+
 Lemma SF_record lim k p sz body rest files ef fs' ef' res :
   p <> 0 -> wr_number (zlen body) = Ok sz ->
   s_file_prop lim p body files ef = Ok (fs', ef') ->
@@ -1020,7 +1041,7 @@ Proof. unfold s_exact. rewrite app_nil_r. intros ->. reflexivity. Qed.
 
 Lemma map_emptystream_st1 files : map e_emptystream (map st1 files) = map e_emptystream files.
 Proof. rewrite map_map. reflexivity. Qed.
-Lemma map_emptystream_norm files : map e_emptystream (map norm_file files) = map e_emptystream files.
+Lemma map_emptystream_norm cd ad files : map e_emptystream (map (norm_file cd ad) files) = map e_emptystream files.
 Proof. rewrite map_map. reflexivity. Qed.
 
 (* EMPTY_STREAM: exactly ceil(n/8) bytes *)
@@ -1107,34 +1128,78 @@ Proof.
     + apply Ok_inj in Ha. subst a. cbn [app]. bstep IH. reflexivity.
 Qed.
 
-Lemma sprop20 lim files vals ef :
+(* CREATION_TIME (18), LAST_ACCESS_TIME (19), LAST_WRITE_TIME (20) *)
+Lemma sprop_time lim p sel (g : fileent -> fileent) files vals ef :
+  p = 18 \/ p = 19 \/ p = 20 ->
   zlen files <= lim ->
-  wr_list (fun f => if opt_defined (e_mtime f) then wr_fixed 8 (opt_value (e_mtime f)) else Ok []) files = Ok vals ->
-  s_file_prop lim 20 (wr_boolean (map (fun f => opt_defined (e_mtime f)) files) true ++ [0] ++ vals)
-              (map st2 files) ef = Ok (map st3 files, ef).
+  wr_list (fun f => if opt_defined (sel f) then wr_fixed 8 (opt_value (sel f)) else Ok []) files = Ok vals ->
+  s_file_prop lim p (wr_boolean (map (fun f => opt_defined (sel f)) files) true ++ [0] ++ vals)
+              (map g files) ef = Ok (map (fun e => set_time p (g e) (flat_opt (sel e))) files, ef).
 Proof.
-  intros Hl Hw. unfold s_file_prop. cbv zeta.
-  change (20 =? 14) with false. change (20 =? 15) with false. change (20 =? 17) with false.
-  change ((20 =? 18) || (20 =? 19) || (20 =? 20)) with true. cbv iota.
-  rewrite (s_exact_app _ _ (map st3 files)); [reflexivity|].
-  rewrite zlen_map, <- (zlen_map (fun f => opt_defined (e_mtime f)) files). rewrite <- !app_assoc.
+  intros Hp Hl Hw. unfold s_file_prop. cbv zeta.
+  assert (E14 : (p =? 14) = false) by lia. assert (E15 : (p =? 15) = false) by lia.
+  assert (E17 : (p =? 17) = false) by lia.
+  assert (Et : (p =? 18) || (p =? 19) || (p =? 20) = true) by lia.
+  rewrite E14, E15, E17, Et.
+  rewrite (s_exact_app _ _ (map (fun e => set_time p (g e) (flat_opt (sel e))) files)); [reflexivity|].
+  rewrite zlen_map, <- (zlen_map (fun f => opt_defined (sel f)) files). rewrite <- !app_assoc.
   rewrite s_defined_vector_wr by (rewrite zlen_map; lia). cbn [bind app s_expect Z.eqb].
-  apply (s_per_file_wr 8 e_mtime (set_time 20) st2 files vals [] Hw).
+  apply (s_per_file_wr 8 sel (set_time p) g files vals [] Hw).
 Qed.
 
-Lemma sprop21 lim files vals ef :
+Lemma sprop21 lim cd ad files vals ef :
   zlen files <= lim ->
   wr_list (fun f => if opt_defined (e_attr f) then wr_fixed 4 (opt_value (e_attr f)) else Ok []) files = Ok vals ->
   s_file_prop lim 21 (wr_boolean (map (fun f => opt_defined (e_attr f)) files) true ++ [0] ++ vals)
-              (map st3 files) ef = Ok (map norm_file files, ef).
+              (map (st3 cd ad) files) ef = Ok (map (norm_file cd ad) files, ef).
 Proof.
   intros Hl Hw. unfold s_file_prop. cbv zeta.
   change (21 =? 14) with false. change (21 =? 15) with false. change (21 =? 17) with false.
   change ((21 =? 18) || (21 =? 19) || (21 =? 20)) with false. change (21 =? 21) with true. cbv iota.
-  rewrite (s_exact_app _ _ (map norm_file files)); [reflexivity|].
+  rewrite (s_exact_app _ _ (map (norm_file cd ad) files)); [reflexivity|].
   rewrite zlen_map, <- (zlen_map (fun f => opt_defined (e_attr f)) files). rewrite <- !app_assoc.
   rewrite s_defined_vector_wr by (rewrite zlen_map; lia). cbn [bind app s_expect Z.eqb].
-  apply (s_per_file_wr 4 e_attr set_attr st3 files vals [] Hw).
+  apply (s_per_file_wr 4 e_attr set_attr (st3 cd ad) files vals [] Hw).
+Qed.
+
+(* a time record as written by _write_times is accepted by one more round of the strict property loop *)
+Lemma SF_time lim k p sel (g : fileent -> fileent) files rec rest ef res :
+  p = 18 \/ p = 19 \/ p = 20 -> zlen files <= lim ->
+  write_times p sel files = Ok rec ->
+  SF lim k (map (fun e => set_time p (g e) (flat_opt (sel e))) files) ef rest res ->
+  SF lim (S k) (map g files) ef (rec ++ rest) res /\ 3 <= zlen rec.
+Proof.
+  intros Hp Hl Hw Hrest. unfold write_times in Hw. cbv zeta in Hw.
+  bind_inv Hw sz Hsz. bind_inv Hw vals Hv. apply Ok_inj in Hw. subst rec.
+  set (defined := map (fun f => opt_defined (sel f)) files) in *.
+  split.
+  - replace (([p] ++ sz ++ wr_boolean defined true ++ [0] ++ vals) ++ rest)
+      with (p :: sz ++ (wr_boolean defined true ++ [0] ++ vals) ++ rest) by (norm_app; reflexivity).
+    pose proof (vector_vals_length 8 sel files vals Hv) as Hlen. fold defined in Hlen.
+    change (Z.of_nat 8) with 8 in Hlen.
+    eapply SF_record; [lia| |apply sprop_time; [exact Hp|lia|exact Hv]|exact Hrest].
+    rewrite (vector_record_size 8 defined vals (zlen files) (zlen_map _ _) Hlen).
+    exact Hsz.
+  - apply wr_number_length in Hsz. rewrite !zlen_app.
+    change (zlen [p]) with 1. change (zlen [0]) with 1.
+    pose proof (zlen_nonneg vals). pose proof (zlen_nonneg (wr_boolean defined true)). lia.
+Qed.
+
+(* CREATION_TIME / LAST_ACCESS_TIME: written exactly when some entry has a defined value *)
+Lemma SF_time_opt lim k p sel (g g' : fileent -> fileent) files rec rest ef res :
+  p = 18 \/ p = 19 -> zlen files <= lim ->
+  write_times_opt p sel files = Ok rec ->
+  (forall e, g' e = if has_time sel files then set_time p (g e) (flat_opt (sel e)) else g e) ->
+  SF lim k (map g' files) ef rest res ->
+  SF lim (k + length rec) (map g files) ef (rec ++ rest) res.
+Proof.
+  intros Hp Hl Hw Hg Hrest. unfold write_times_opt in Hw.
+  destruct (has_time sel files) eqn:E.
+  - rewrite (map_ext _ _ Hg) in Hrest.
+    destruct (SF_time lim k p sel g files rec rest ef res ltac:(lia) Hl Hw Hrest) as [H1 H2].
+    eapply SF_weaken_le; [|exact H1]. unfold zlen in H2. lia.
+  - apply Ok_inj in Hw. subst rec. cbn [app length]. rewrite Nat.add_0_r.
+    rewrite (map_ext _ _ Hg) in Hrest. exact Hrest.
 Qed.
 
 Lemma named_empty_names files : named_bs files = true -> (length (names_of files) =? 0)%nat = true -> files = [].
@@ -1148,21 +1213,23 @@ Qed.
 Theorem s_files_wr lim pos files ef bs :
   zlen files <= lim -> named_bs files = true -> write_files pos files ef = Ok bs ->
   exists body, bs = 5 :: body /\
-    forall r, s_files lim (body ++ r) = Ok ((map norm_file files, norm_emptyfiles files ef), r).
+    forall r, s_files lim (body ++ r) = Ok ((norm_files files, norm_emptyfiles files ef), r).
 Proof.
-  unfold write_files. intros Hlim Hnames Hw.
+  unfold write_files, norm_files. intros Hlim Hnames Hw.
+  remember (has_time e_ctime files) as cd eqn:Ecd. remember (has_time e_atime files) as ad eqn:Ead.
   bind_inv Hw n Hn. cbv zeta in Hw. fold (norm_emptyfiles files ef) in Hw. bind_inv Hw a Ha.
   set (pad := if 2 <? _ then _ else _) in Hw.
   assert (Hpad : pad = [] \/ exists d, 0 <= d < 128 /\ pad = 25 :: d :: repeatZ 0 (Z.to_nat d))
     by apply pad_cases.
   clearbody pad.
-  bind_inv Hw nm Hnm. bind_inv Hw tm Htm. bind_inv Hw at_ Hat. apply Ok_inj in Hw. subst bs.
+  bind_inv Hw nm Hnm. bind_inv Hw ct Hct. bind_inv Hw lat Hlat. bind_inv Hw tm Htm. bind_inv Hw at_ Hat.
+  apply Ok_inj in Hw. subst bs.
   cbn [app]. eexists. split; [reflexivity|]. intros r.
-  set (res := fun ef0 : option (list bool) => ((map norm_file files, ef0), r)).
+  set (res := fun ef0 : option (list bool) => ((map (norm_file cd ad) files, ef0), r)).
   (* END *)
-  assert (H1 : forall ef0, SF lim 1 (map norm_file files) ef0 (0 :: r) (res ef0)) by (intros; apply SF_end).
+  assert (H1 : forall ef0, SF lim 1 (map (norm_file cd ad) files) ef0 (0 :: r) (res ef0)) by (intros; apply SF_end).
   (* ATTRIBUTES *)
-  assert (H2 : forall ef0, SF lim 2 (map st3 files) ef0 (at_ ++ 0 :: r) (res ef0)).
+  assert (H2 : forall ef0, SF lim 2 (map (st3 cd ad) files) ef0 (at_ ++ 0 :: r) (res ef0)).
   { intros ef0. unfold write_attributes in Hat. cbv zeta in Hat.
     bind_inv Hat sz Hsz. bind_inv Hat vals Hv. apply Ok_inj in Hat. subst at_.
     set (defined := map (fun f => opt_defined (e_attr f)) files) in *.
@@ -1174,38 +1241,45 @@ Proof.
     rewrite (vector_record_size 4 defined vals (zlen files) (zlen_map _ _) Hlen).
     rewrite <- count_true_all. unfold defined in *. rewrite zlen_map. exact Hsz. }
   (* LAST_WRITE_TIME *)
-  assert (H3 : forall ef0, SF lim 3 (map st2 files) ef0 (tm ++ at_ ++ 0 :: r) (res ef0)).
-  { intros ef0. unfold write_times in Htm. cbv zeta in Htm.
-    bind_inv Htm sz Hsz. bind_inv Htm vals Hv. apply Ok_inj in Htm. subst tm.
-    set (defined := map (fun f => opt_defined (e_mtime f)) files) in *.
-    replace (([20] ++ sz ++ wr_boolean defined true ++ [0] ++ vals) ++ at_ ++ 0 :: r)
-      with (20 :: sz ++ (wr_boolean defined true ++ [0] ++ vals) ++ at_ ++ 0 :: r) by (norm_app; reflexivity).
-    pose proof (vector_vals_length 8 e_mtime files vals Hv) as Hlen. fold defined in Hlen.
-    change (Z.of_nat 8) with 8 in Hlen.
-    eapply SF_record; [lia| |apply sprop20; [lia|exact Hv]|apply H2].
-    rewrite (vector_record_size 8 defined vals (zlen files) (zlen_map _ _) Hlen).
-    exact Hsz. }
+  assert (H3 : (forall ef0, SF lim 3 (map (st2a cd ad) files) ef0 (tm ++ at_ ++ 0 :: r) (res ef0)) /\ 3 <= zlen tm).
+  { split; [intros ef0|].
+    - eapply (SF_time lim 2 20 e_mtime (st2a cd ad) files tm (at_ ++ 0 :: r) ef0 (res ef0) ltac:(lia) ltac:(lia) Htm).
+      apply H2.
+    - eapply (SF_time lim 2 20 e_mtime (st2a cd ad) files tm (at_ ++ 0 :: r) None (res None) ltac:(lia) ltac:(lia) Htm).
+      apply H2. }
+  destruct H3 as [H3 Ltm].
+  (* LAST_ACCESS_TIME, when some entry has one *)
+  assert (H3a : forall ef0, SF lim (3 + length lat) (map (st2c cd) files) ef0 (lat ++ tm ++ at_ ++ 0 :: r) (res ef0)).
+  { intros ef0. eapply (SF_time_opt lim 3 19 e_atime (st2c cd) (st2a cd ad)); [lia|lia|exact Hlat| |apply H3].
+    intros e. rewrite <- Ead. destruct ad; reflexivity. }
+  (* CREATION_TIME, when some entry has one *)
+  assert (H3c : forall ef0, SF lim (3 + length lat + length ct) (map st2 files) ef0
+                               (ct ++ lat ++ tm ++ at_ ++ 0 :: r) (res ef0)).
+  { intros ef0. eapply (SF_time_opt lim _ 18 e_ctime st2 (st2c cd)); [lia|lia|exact Hct| |apply H3a].
+    intros e. rewrite <- Ecd. destruct cd; reflexivity. }
+  set (K := (3 + length lat + length ct)%nat) in *.
   (* NAME *)
-  assert (H4 : forall ef0, SF lim 4 (map st1 files) ef0 (nm ++ tm ++ at_ ++ 0 :: r) (res ef0)).
+  assert (H4 : forall ef0, SF lim (S K) (map st1 files) ef0 (nm ++ ct ++ lat ++ tm ++ at_ ++ 0 :: r) (res ef0)).
   { intros ef0. unfold write_names in Hnm. fold (names_of files) in Hnm.
     destruct (length (names_of files) =? 0)%nat eqn:E0.
     - apply Ok_inj in Hnm. subst nm. cbn [app]. apply SF_weaken.
       pose proof (named_empty_names files Hnames E0) as Hnil.
-      replace (map st1 files) with (map st2 files) by (rewrite Hnil; reflexivity). apply H3.
+      replace (map st1 files) with (map st2 files) by (rewrite Hnil; reflexivity). apply H3c.
     - bind_inv Hnm body Hb. bind_inv Hnm sz Hsz. apply Ok_inj in Hnm. subst nm.
-      replace (([17] ++ sz ++ [0] ++ body) ++ tm ++ at_ ++ 0 :: r)
-        with (17 :: sz ++ (0 :: body) ++ tm ++ at_ ++ 0 :: r) by (norm_app; reflexivity).
-      eapply SF_record; [lia| |apply sprop17; [exact Hnames|exact Hb]|apply H3].
+      replace (([17] ++ sz ++ [0] ++ body) ++ ct ++ lat ++ tm ++ at_ ++ 0 :: r)
+        with (17 :: sz ++ (0 :: body) ++ ct ++ lat ++ tm ++ at_ ++ 0 :: r) by (norm_app; reflexivity).
+      eapply SF_record; [lia| |apply sprop17; [exact Hnames|exact Hb]|apply H3c].
       rewrite zlen_cons. replace (1 + zlen body) with (zlen body + 1) by lia. exact Hsz. }
   (* kDummy *)
-  assert (H5 : forall ef0, SF lim 5 (map st1 files) ef0 (pad ++ nm ++ tm ++ at_ ++ 0 :: r) (res ef0)).
+  assert (H5 : forall ef0, SF lim (S (S K)) (map st1 files) ef0 (pad ++ nm ++ ct ++ lat ++ tm ++ at_ ++ 0 :: r) (res ef0)).
   { intros ef0. destruct Hpad as [-> | [d [Hd ->]]].
     - cbn [app]. apply SF_weaken. apply H4.
     - norm_app. apply SF_dummy; [exact Hd|apply H4]. }
   (* EMPTY_STREAM and EMPTY_FILE *)
   assert (H7 : exists ef0,
     (ef0 = Some (norm_emptyfiles files ef) \/ (ef0 = None /\ any_true (norm_emptyfiles files ef) = false)) /\
-    SF lim 7 (repeat empty_file (length files)) None (a ++ pad ++ nm ++ tm ++ at_ ++ 0 :: r) (res ef0)).
+    SF lim (S (S (S (S K)))) (repeat empty_file (length files)) None
+       (a ++ pad ++ nm ++ ct ++ lat ++ tm ++ at_ ++ 0 :: r) (res ef0)).
   { set (es := map e_emptystream files) in *.
     destruct (any_true es) eqn:Ees.
     - bind_inv Ha sz Hsz. bind_inv Ha b Hb. apply Ok_inj in Ha. subst a.
@@ -1213,9 +1287,9 @@ Proof.
       + bind_inv Hb sz2 Hsz2. apply Ok_inj in Hb. subst b.
         exists (Some (norm_emptyfiles files ef)). split; [left; reflexivity|].
         replace (([14] ++ sz ++ wr_bits es ++ [15] ++ sz2 ++ wr_bits (norm_emptyfiles files ef)) ++
-                 pad ++ nm ++ tm ++ at_ ++ 0 :: r)
+                 pad ++ nm ++ ct ++ lat ++ tm ++ at_ ++ 0 :: r)
           with (14 :: sz ++ wr_bits es ++
-                15 :: sz2 ++ wr_bits (norm_emptyfiles files ef) ++ pad ++ nm ++ tm ++ at_ ++ 0 :: r)
+                15 :: sz2 ++ wr_bits (norm_emptyfiles files ef) ++ pad ++ nm ++ ct ++ lat ++ tm ++ at_ ++ 0 :: r)
           by (norm_app; reflexivity).
         eapply SF_record; [lia| |apply sprop14|].
         { unfold es. rewrite wr_bits_length, zlen_map. exact Hsz. }
@@ -1224,8 +1298,8 @@ Proof.
         fold es. pose proof (count_true_bounds es).
         replace (Z.of_nat (Z.to_nat (count_true es))) with (count_true es) by lia. exact Hsz2.
       + apply Ok_inj in Hb. subst b. exists None. split; [right; auto|].
-        replace (([14] ++ sz ++ wr_bits es ++ []) ++ pad ++ nm ++ tm ++ at_ ++ 0 :: r)
-          with (14 :: sz ++ wr_bits es ++ pad ++ nm ++ tm ++ at_ ++ 0 :: r)
+        replace (([14] ++ sz ++ wr_bits es ++ []) ++ pad ++ nm ++ ct ++ lat ++ tm ++ at_ ++ 0 :: r)
+          with (14 :: sz ++ wr_bits es ++ pad ++ nm ++ ct ++ lat ++ tm ++ at_ ++ 0 :: r)
           by (rewrite app_nil_r; norm_app; reflexivity).
         apply SF_weaken. eapply SF_record; [lia| |apply sprop14|apply H5].
         unfold es. rewrite wr_bits_length, zlen_map. exact Hsz.
@@ -1241,27 +1315,21 @@ Proof.
       + do 2 apply SF_weaken. rewrite (no_empty_st1 files Ees). apply H5. }
   destruct H7 as [ef0 [Hef0 H7]].
   unfold s_files. norm_app.
-  bstep (s_number_wr _ _ (a ++ pad ++ nm ++ tm ++ at_ ++ 0 :: r) Hn).
+  bstep (s_number_wr _ _ (a ++ pad ++ nm ++ ct ++ lat ++ tm ++ at_ ++ 0 :: r) Hn).
   destruct (lim <? zlen files) eqn:El; [lia|].
   unfold zlen at 1. rewrite Nat2Z.id. rewrite H7.
   - unfold res. cbn [bind]. rewrite map_emptystream_norm. f_equal.
     pose proof (norm_emptyfiles_length files ef) as Hl.
     destruct Hef0 as [-> | [-> Hf]]; [reflexivity|].
     rewrite (any_true_false_all _ Hf), Hl. reflexivity.
-  - (* fuel: the records written always occupy at least 6 bytes *)
-    assert (3 <= zlen tm).
-    { unfold write_times in Htm. cbv zeta in Htm. bind_inv Htm sz Hsz. bind_inv Htm vals Hv.
-      apply Ok_inj in Htm. subst tm. apply wr_number_length in Hsz. rewrite !zlen_app.
-      change (zlen [20]) with 1. change (zlen [0]) with 1.
-      pose proof (zlen_nonneg vals).
-      pose proof (zlen_nonneg (wr_boolean (map (fun f => opt_defined (e_mtime f)) files) true)). lia. }
+  - (* fuel: each record written occupies at least 3 bytes *)
     assert (3 <= zlen at_).
     { unfold write_attributes in Hat. cbv zeta in Hat. bind_inv Hat sz Hsz. bind_inv Hat vals Hv.
       apply Ok_inj in Hat. subst at_. apply wr_number_length in Hsz. rewrite !zlen_app.
       change (zlen [21]) with 1. change (zlen [0]) with 1.
       pose proof (zlen_nonneg vals).
       pose proof (zlen_nonneg (wr_boolean (map (fun f => opt_defined (e_attr f)) files) true)). lia. }
-    rewrite !app_length. cbn [length]. unfold zlen in *. lia.
+    unfold K. rewrite !app_length. cbn [length]. unfold zlen in *. lia.
 Qed.
 
 (* ---- the size field of every property record is the length of its content ---- *)
@@ -1270,6 +1338,20 @@ Proof.
   intros Hd. unfold number_enc, number_extra. destruct (d <? 2 ^ 7) eqn:E; [|lia].
   unfold number_prefix. cbn [Nat.ltb Nat.leb le_bytes Z.of_nat]. f_equal.
   change (2 ^ (8 - 0)) with 256. change (256 ^ 0) with 1. rewrite Z.div_1_r. lia.
+Qed.
+
+Lemma time_record_content p sel files rec :
+  write_times p sel files = Ok rec ->
+  exists body, rec = enc_record (p, body) /\ time_record sel files body.
+Proof.
+  intros Hw. unfold write_times in Hw. cbv zeta in Hw. bind_inv Hw sz Hsz. bind_inv Hw vals Hv.
+  apply Ok_inj in Hw. subst rec. apply wr_number_inv in Hsz as [_ ->]. fold (time_defined sel files) in *.
+  pose proof (vector_vals_length 8 sel files vals Hv) as Hlen.
+  fold (time_defined sel files) in Hlen. change (Z.of_nat 8) with 8 in Hlen.
+  pose proof (vector_record_size 8 (time_defined sel files) vals (zlen files) (zlen_map _ _) Hlen) as Hsize.
+  exists (wr_boolean (time_defined sel files) true ++ [0] ++ vals). split.
+  - unfold enc_record. cbn [fst snd]. rewrite Hsize. reflexivity.
+  - exists vals. split; [exact Hv|split; [reflexivity|]]. rewrite Hsize. destruct (all_true (time_defined sel files)); lia.
 Qed.
 
 Theorem property_sizes_exact pos files ef bs :
@@ -1284,7 +1366,8 @@ Proof.
   assert (Hpad : pad = [] \/ exists d, 0 <= d < 128 /\ pad = 25 :: d :: repeatZ 0 (Z.to_nat d))
     by apply pad_cases.
   clearbody pad.
-  bind_inv Hw nm Hnm. bind_inv Hw tm Htm. bind_inv Hw at_ Hat. apply Ok_inj in Hw. subst bs.
+  bind_inv Hw nm Hnm. bind_inv Hw ct Hct. bind_inv Hw lat Hlat. bind_inv Hw tm Htm. bind_inv Hw at_ Hat.
+  apply Ok_inj in Hw. subst bs.
   apply wr_number_inv in Hn as [_ ->].
   set (efl := norm_emptyfiles files ef) in *.
   set (P := fun (x : bytes) (rs : list (Z * bytes)) =>
@@ -1321,16 +1404,22 @@ Proof.
     - cbn [flat_map enc_record fst snd app]. rewrite zlen_cons, app_nil_r.
       replace (1 + zlen body) with (zlen body + 1) by lia. reflexivity.
     - apply Forall_cons; [|apply Forall_nil]. right; right; right; left. split; [reflexivity|]. exists body. auto. }
+  assert (Pct : exists rs, P ct rs).
+  { unfold write_times_opt in Hct. destruct (has_time e_ctime files) eqn:Ec.
+    - destruct (time_record_content 18 e_ctime files ct Hct) as [body [-> Hb]].
+      exists [(18, body)]. split; [cbn [flat_map]; rewrite app_nil_r; reflexivity|].
+      apply Forall_cons; [|apply Forall_nil]. right; right; right; right; left. auto.
+    - apply Ok_inj in Hct. subst ct. exists []. split; [reflexivity|constructor]. }
+  assert (Plat : exists rs, P lat rs).
+  { unfold write_times_opt in Hlat. destruct (has_time e_atime files) eqn:Ec.
+    - destruct (time_record_content 19 e_atime files lat Hlat) as [body [-> Hb]].
+      exists [(19, body)]. split; [cbn [flat_map]; rewrite app_nil_r; reflexivity|].
+      apply Forall_cons; [|apply Forall_nil]. right; right; right; right; right; left. auto.
+    - apply Ok_inj in Hlat. subst lat. exists []. split; [reflexivity|constructor]. }
   assert (Pt : exists rs, P tm rs).
-  { unfold write_times in Htm. cbv zeta in Htm. bind_inv Htm sz Hsz. bind_inv Htm vals Hv.
-    apply Ok_inj in Htm. subst tm. apply wr_number_inv in Hsz as [_ ->]. fold (mtime_defined files) in *.
-    pose proof (vector_vals_length 8 e_mtime files vals Hv) as Hlen.
-    fold (mtime_defined files) in Hlen. change (Z.of_nat 8) with 8 in Hlen.
-    pose proof (vector_record_size 8 (mtime_defined files) vals (zlen files) (zlen_map _ _) Hlen) as Hsize.
-    exists [(20, wr_boolean (mtime_defined files) true ++ [0] ++ vals)]. split.
-    - cbn [flat_map]. unfold enc_record. cbn [fst snd]. rewrite Hsize, app_nil_r. reflexivity.
-    - apply Forall_cons; [|apply Forall_nil]. right; right; right; right; left. split; [reflexivity|]. exists vals.
-      split; [exact Hv|split; [reflexivity|]]. rewrite Hsize. destruct (all_true (mtime_defined files)); lia. }
+  { destruct (time_record_content 20 e_mtime files tm Htm) as [body [-> Hb]].
+    exists [(20, body)]. split; [cbn [flat_map]; rewrite app_nil_r; reflexivity|].
+    apply Forall_cons; [|apply Forall_nil]. right; right; right; right; right; right; left. auto. }
   assert (Pat : exists rs, P at_ rs).
   { unfold write_attributes in Hat. cbv zeta in Hat. bind_inv Hat sz Hsz. bind_inv Hat vals Hv.
     apply Ok_inj in Hat. subst at_. apply wr_number_inv in Hsz as [_ ->]. fold (attr_defined files) in *.
@@ -1341,12 +1430,13 @@ Proof.
     rewrite <- count_true_all, Hz in Hsize.
     exists [(21, wr_boolean (attr_defined files) true ++ [0] ++ vals)]. split.
     - cbn [flat_map]. unfold enc_record. cbn [fst snd]. rewrite Hsize, app_nil_r. reflexivity.
-    - apply Forall_cons; [|apply Forall_nil]. right; right; right; right; right. split; [reflexivity|]. exists vals.
+    - apply Forall_cons; [|apply Forall_nil]. right; right; right; right; right; right; right. split; [reflexivity|]. exists vals.
       split; [exact Hv|split; [reflexivity|]]. rewrite Hsize, <- count_true_all, Hz.
       destruct (count_true (attr_defined files) =? zlen files); lia. }
   destruct Pa as [ra [-> Fa]]. destruct Pp as [rp [-> Fp]]. destruct Pn as [rn [-> Fn]].
+  destruct Pct as [rc [-> Fc]]. destruct Plat as [rl [-> Fl]].
   destruct Pt as [rt [-> Ft]]. destruct Pat as [rat [-> Fat]].
-  exists (ra ++ rp ++ rn ++ rt ++ rat). split.
+  exists (ra ++ rp ++ rn ++ rc ++ rl ++ rt ++ rat). split.
   - rewrite !flat_map_app. norm_app. reflexivity.
   - repeat (apply Forall_app; split); assumption.
 Qed.
@@ -1409,7 +1499,7 @@ Proof.
   (* FilesInfo *)
   assert (HB : (fl = None /\ b = [] /\ ef = []) \/
                exists files bfl, fl = Some files /\ b = 5 :: bfl /\
-                 forall r, s_files lim (bfl ++ r) = Ok ((map norm_file files, ef), r)).
+                 forall r, s_files lim (bfl ++ r) = Ok ((norm_files files, ef), r)).
   { destruct fl as [files|].
     - right. unfold wfw_files in Hwfl. apply andb_true_iff in Hwfl as [Hwfl Hef].
       apply andb_true_iff in Hwfl as [Hl Hnm].
@@ -1457,8 +1547,8 @@ Qed.
 (* ================================================================== *)
 (* Structural validity and meaning                                     *)
 (* ================================================================== *)
-Lemma filter_data_norm files :
-  filter (fun e => negb (e_emptystream e)) (map norm_file files) = map norm_file (filter is_data files).
+Lemma filter_data_norm cd ad files :
+  filter (fun e => negb (e_emptystream e)) (map (norm_file cd ad) files) = map (norm_file cd ad) (filter is_data files).
 Proof.
   induction files as [|e fs IH]; [reflexivity|]. cbn [map filter]. unfold is_data at 1.
   cbn [norm_file e_emptystream]. destruct (negb (e_emptystream e)); cbn [map]; rewrite IH; reflexivity.
@@ -1489,12 +1579,12 @@ Proof.
   bind_inv Hw a Ha. clear Hw.
   unfold files_of, nums_of in Hcount. cbn [h_streams h_files h_emptyfiles] in Hcount.
   set (files := match fl with Some f => f | None => [] end) in *.
-  assert (Hef : zlen ef = count_true (map e_emptystream (map norm_file files))).
-  { rewrite map_emptystream_norm. unfold files. destruct fl as [f|].
+  assert (Hef : zlen ef = count_true (map e_emptystream (norm_files files))).
+  { unfold norm_files. rewrite map_emptystream_norm. unfold files. destruct fl as [f|].
     - unfold wfw_files in Hwfl. apply andb_true_iff in Hwfl as [_ Hef]. lia.
     - destruct ef; [reflexivity|discriminate]. }
-  assert (Hdata : zlen (filter (fun e => negb (e_emptystream e)) (map norm_file files)) = zlen (filter is_data files)).
-  { rewrite filter_data_norm. apply zlen_map. }
+  assert (Hdata : zlen (filter (fun e => negb (e_emptystream e)) (norm_files files)) = zlen (filter is_data files)).
+  { unfold norm_files. rewrite filter_data_norm. apply zlen_map. }
   unfold s_valid, sem_of, files_of. cbn [h_streams h_files h_emptyfiles]. fold files.
   destruct st as [[pk fo so]|].
   - cbn [si_pack si_folders si_sub] in *.
@@ -1572,9 +1662,9 @@ Qed.
 Lemma flat_opt_norm (o : option (option Z)) : flat_opt (Some (flat_opt o)) = flat_opt o.
 Proof. destruct o as [[v|]|]; reflexivity. Qed.
 
-Lemma plans_entries : forall files ef R,
+Lemma plans_entries cd ad : forall files ef R,
   zlen ef = count_true (map e_emptystream files) -> length R = length (filter is_data files) ->
-  s_plans (map norm_file files) ef R = entries_of files ef R.
+  s_plans (map (norm_file cd ad) files) ef R = entries_of files ef R.
 Proof.
   induction files as [|e fs IH]; intros ef R Hef HR; [reflexivity|].
   cbn [map s_plans entries_of]. cbn [norm_file e_emptystream e_name e_mtime e_attr]. rewrite !flat_opt_norm.
@@ -1731,11 +1821,13 @@ Example idlen_needed :
 Proof. eexists. eexists. split; [vm_compute; reflexivity|]. split; [vm_compute; reflexivity|]. reflexivity. Qed.
 
 (* the size fields on an example: five entries, partially defined vectors, an astral-plane name;
-   records 14, 15, 25 (kDummy), 17, 20, 21 with content lengths 1, 1, 1, 31, 27, 15 *)
+   the last entry has a creation time, so the CREATION_TIME record is written (and no LAST_ACCESS_TIME);
+   records 14, 15, 25 (kDummy), 17, 18, 20, 21 with content lengths 1, 1, 1, 31, 11, 27, 15 *)
 Example property_sizes_ex :
   write_files 33 (files_of ex_written) [false; true] =
   Ok ([5; 5] ++ enc_record (14, [80]) ++ enc_record (15, [64]) ++ enc_record (25, [0]) ++
       enc_record (17, [0; 97; 0; 92; 0; 98; 0; 0; 0; 100; 0; 0; 0; 98; 0; 172; 32; 61; 216; 0; 222; 0; 0; 101; 0; 0; 0; 99; 0; 0; 0]) ++
+      enc_record (18, [0; 8; 0; 5; 0; 0; 0; 0; 0; 0; 0]) ++
       enc_record (20, [0; 152; 0; 0; 0; 5; 105; 54; 192; 213; 1; 1; 0; 0; 0; 0; 0; 0; 0; 0; 0; 0; 0; 0; 0; 0; 0]) ++
       enc_record (21, [0; 200; 0; 32; 0; 0; 0; 16; 0; 0; 0; 0; 0; 0; 128]) ++ [0]).
 Proof. vm_compute. reflexivity. Qed.
